@@ -3,7 +3,7 @@
 import json, os, re
 NOTES = {
  "C01-i": "the change is in _diff_and_patch (unchanged lines stripped before make_pre), which the generic rule language cannot see - only vendor logic reads unchanged siblings; caught by C16's check (device vs file front end) and by C11's (huawei 'undo ... vlan all')",
- "C01-j": "NOT caught: JuniperFormatter.cmd_paths collapsing the repeated 'edit'/'exit' lines of ANNOTATION changes; C01 generates no annotations (C04 covers their text form only)",
+ "C01-j": "caught after juniper annotation changes over the shipped juniper rulebook were generated (4 % of C01's cases): the stream must consist of self-contained lines and complete edit / annotate / exit triples, one per changed annotation; patch re-based after 68a229d",
  "C02-j": "the change is in compile_row_regexp ('*/re/' loses its word boundary): caught by C07's check (its subject)",
  "C03-i": "caught after annet.diff.collapse_diffs (the grouped review text of a deploy) was driven with three devices, one with the contents of two sibling blocks exchanged",
  "C03-j": "the change is in the file front end (_read_old_new_diff_patch hands the pre it patched from to the diff view): caught by C16's check (file_diff_worker text vs device diff)",
